@@ -750,6 +750,9 @@ func (r *Runner) builtin(ctx context.Context, pos syntax.Pos, name string, args 
 			}
 			// Use -1 as max to get all fields without joining the last ones.
 			values := expand.ReadFields(r.ecfg, string(line), -1, raw)
+			if values == nil {
+				values = []string{} // an empty array, not an unset one
+			}
 			r.setVar(arrayName, expand.Variable{
 				Set:  true,
 				Kind: expand.Indexed,
